@@ -36,13 +36,24 @@ example : findCycleG [⟨[], [97]⟩, ⟨[], [98]⟩] (fun l => if l = ⟨[], [9
 theorem clean_normal_form (p : Bytes) (h : isAbs p = false) : clean (clean p) = clean p :=
   Paths.clean_normal_form h
 
-/-- the string-prefix test `pathWithin` on cleaned relative paths is containment of component lists -/
+/-- the string-prefix test `pathWithin` on resolved (rooted, cleaned) paths is the prefix relation on components -/
 theorem within_iff_prefix (p d : List Bytes) (hp : CompsOK p) (hd : CompsOK d) :
-    pathWithin true (renderRel p) (renderRel d) = true ↔ Inside p d :=
-  Paths.within_iff_prefix hp hd
+    pathWithin true true (renderAbs p) (renderAbs d) = true ↔ d <+: p :=
+  Paths.within_abs_iff hp hd
 
-example : CompsOK [[100], [120]] ∧ CompsOK [[100]] ∧ Inside [[100], [120]] [[100]] := by
-  refine ⟨by unfold CompsOK; decide, by unfold CompsOK; decide, ⟨[[120]], rfl⟩, by simp⟩
+example : CompsOK [[100], [120]] ∧ CompsOK [[100]] ∧ ([[100]] : List Bytes) <+: [[100], [120]] := by
+  refine ⟨by unfold CompsOK; decide, by unfold CompsOK; decide, ⟨[[120]], rfl⟩⟩
+
+/-- what overlaps are decided on — `filepath.Join(root, cleanOutputPath(target, out))` — is the printed form of the
+    output's components resolved from the workspace root: `x` and `../<rootname>/x` get the same string -/
+theorem resolved_path_spec (ws pkg ident : Bytes) (hws : isAbs ws = true) (hp : isAbs pkg = false)
+    (hi : isAbs ident = false) :
+    resolvedOutputPath ws pkg ident =
+      renderAbs (normComps true (splitSlash ws ++ (splitSlash pkg ++ splitSlash ident))) :=
+  resolvedOutputPath_abs hws hp hi
+
+example : resolvedOutputPath [47, 119, 47, 115] [] [120] = resolvedOutputPath [47, 119, 47, 115] [] [46, 46, 47, 115, 47, 120] := by
+  decide
 
 /-- the code's "ordered by dependency" test is reachability along dependencies, one way or the other -/
 theorem ordered_iff (ns : List Node) (hnd : NoDuplicate ns) (hdef : DepsDefined ns) (a b : Label) :
@@ -60,14 +71,16 @@ example : CacheOK [] [] := cacheOK_nil []
 
 /-- the memo table of `getAncestorSet` never changes an answer: conflict detection with the table
     (what the code does, `hasConflictC`) equals conflict detection without it -/
-theorem ancestorCache_transparent (ns : List Node) (hnd : NoDuplicate ns) (hdef : DepsDefined ns) (cfg : Cfg) :
-    hasConflictC cfg ns = hasConflict cfg ns :=
-  hasConflictC_eq hnd hdef cfg
+theorem ancestorCache_transparent (ns : List Node) (hnd : NoDuplicate ns) (hdef : DepsDefined ns) (cfg : Cfg)
+    (ws : Bytes) :
+    hasConflictC cfg ws ns = hasConflict cfg ws ns :=
+  hasConflictC_eq hnd hdef cfg ws
 
 /-- conflict detection ⇔ there are two different targets, unordered, with overlapping outputs -/
-theorem conflict_iff (ns : List Node) (hnd : NoDuplicate ns) (hdef : DepsDefined ns) (hrel : RelOuts ns) :
-    hasConflictC Cfg.current ns = true ↔ Conflict ns := by
-  rw [hasConflictC_eq hnd hdef]; exact hasConflict_iff hnd hdef hrel
+theorem conflict_iff (ws : Bytes) (hws : isAbs ws = true) (ns : List Node) (hnd : NoDuplicate ns)
+    (hdef : DepsDefined ns) (hrel : RelOuts ns) :
+    hasConflictC Cfg.current ws ns = true ↔ Conflict ws ns := by
+  rw [hasConflictC_eq hnd hdef]; exact hasConflict_iff hws hnd hdef hrel
 
 /-! ### the property -/
 
@@ -82,7 +95,7 @@ theorem accepts_iff_valid (ws : Bytes) (ps : List Pkg) (hws : isAbs ws = true) (
     simp only
     constructor
     · intro h
-      cases hg : buildGraph Cfg.current (allNodes ps) with
+      cases hg : buildGraph Cfg.current ws (allNodes ps) with
       | some k => simp [hg] at h
       | none =>
         simp only [hg] at h
@@ -91,12 +104,12 @@ theorem accepts_iff_valid (ws : Bytes) (ps : List Pkg) (hws : isAbs ws = true) (
         | nil =>
           have hout := constraintErrors_nil_outputs hws hc
           have hrel := relOuts_of_outputs hpk hout
-          obtain ⟨hdef, hnc, hcf⟩ := (buildGraph_none_iff hnd hrel).mp hg
+          obtain ⟨hdef, hnc, hcf⟩ := (buildGraph_none_iff hws hnd hrel).mp hg
           obtain ⟨h1, h2, h3, h4⟩ := (constraintErrors_nil hws hnd hnc).mp hc
           exact ⟨⟨hnd, hdef, hnc, hcf, h1, h2, h4⟩, h3⟩
     · rintro ⟨⟨_, hdef, hnc, hcf, h1, h2, h4⟩, h3⟩
       have hrel := relOuts_of_outputs hpk h2
-      rw [(buildGraph_none_iff hnd hrel).mpr ⟨hdef, hnc, hcf⟩]
+      rw [(buildGraph_none_iff hws hnd hrel).mpr ⟨hdef, hnc, hcf⟩]
       simp only
       rw [(constraintErrors_nil hws hnd hnc).mpr ⟨h1, h2, h3, h4⟩]
   · rw [hb]
@@ -129,8 +142,8 @@ theorem rejects_iff_defect (ws : Bytes) (ps : List Pkg) (hws : isAbs ws = true) 
 
 /-! a valid, non-trivial graph: `//:a` writes `x`; alias `//p:al → //:a`; `//p:b` depends on the alias and
     writes `../x` (the same file) and the directory `d`; both are accepted because they are ordered. -/
-def exA : Target := ⟨⟨[], [97]⟩, [], [[115]], [⟨.file, [120]⟩], false, true⟩
-def exB : Target := ⟨⟨[112], [98]⟩, [⟨[112], [97, 108]⟩], [], [⟨.file, [46, 46, 47, 120]⟩, ⟨.dir, [100]⟩], false, true⟩
+def exA : Target := ⟨⟨[], [97]⟩, [], [[115]], [[42, 46, 99]], [⟨.file, [120]⟩], false, true⟩
+def exB : Target := ⟨⟨[112], [98]⟩, [⟨[112], [97, 108]⟩], [], [], [⟨.file, [46, 46, 47, 120]⟩, ⟨.dir, [100]⟩], false, true⟩
 def exPs : List Pkg := [⟨[exA], []⟩, ⟨[exB], [⟨⟨[112], [97, 108]⟩, ⟨[], [97]⟩⟩]⟩]
 def exWs : Bytes := [47, 119]
 
@@ -183,7 +196,7 @@ theorem reject_names_present_defect (ws : Bytes) (ps : List Pkg) (hws : isAbs ws
   rcases buildNodeMap_spec ps with ⟨hb, hnd⟩ | ⟨hb, hnd⟩
   · rw [hb] at h
     simp only at h
-    cases hg : buildGraph Cfg.current (allNodes ps) with
+    cases hg : buildGraph Cfg.current ws (allNodes ps) with
     | some k' =>
       simp only [hg, Verdict.reject.injEq] at h
       subst h
@@ -218,7 +231,7 @@ theorem reject_names_present_defect (ws : Bytes) (ps : List Pkg) (hws : isAbs ws
                 cases hh : isAbs o.ident
                 · rfl
                 · exact absurd ⟨t, ht, o, ho, hk, hh⟩ habs
-              exact .inl ((conflict_iff _ hnd hdef hrel).mp hcf)
+              exact .inl ((conflict_iff ws hws _ hnd hdef hrel).mp hcf)
           · cases hg
         · intro _ hf; exact hf.elim
     | none =>
@@ -236,25 +249,119 @@ theorem reject_names_present_defect (ws : Bytes) (ps : List Pkg) (hws : isAbs ws
 
 /-! ### nothing runs on reject -/
 
-/-- `build`, `test`, `run` and `check` reach the executor only after `accept` of the WHOLE loaded graph: if the
-    analysis rejects, the run consists of the diagnostic and the failing exit — whatever the command and whatever
-    target patterns or tag filters were given (a defect outside the selected part still stops everything) -/
-theorem reject_runs_nothing (r : Request) (ws : Bytes) (ps : List Pkg) (k : Kind)
+/-- an environment in which nothing but the graph can stop a command -/
+def envOk : Env := ⟨true, true, 1, true, true, true⟩
+
+/-- **Nothing runs on reject.** Statement about the command model `runCmd` (its stage order is what the CLI part of the
+    check ties to `cmds/*.go`; nothing about the Go control flow is proved here): if the analysis of the WHOLE loaded
+    graph rejects, then — whatever the command, its target patterns and tag filters, and whatever selection, cache and
+    lock would have done — the executor is not entered, no binary is started, a message is printed and the run ends
+    with the failing exit. A defect outside the selected part stops everything. -/
+theorem reject_runs_nothing (r : Request) (env : Env) (ws : Bytes) (ps : List Pkg) (k : Kind)
     (h : analyze ws ps = .reject k) :
-    runCmd Cfg.current r ws ps = [.diagnostic k, .exitFail] ∧ Ev.execute ∉ runCmd Cfg.current r ws ps := by
-  have h' : analyzeWith Cfg.current ws ps = .reject k := h
-  simp [runCmd, h']
+    Ev.execute ∉ runCmd Cfg.current r env ws ps ∧ Ev.runBinaries ∉ runCmd Cfg.current r env ws ps ∧
+    (runCmd Cfg.current r env ws ps).getLast? = some .exitFail ∧
+    (∃ e ∈ runCmd Cfg.current r env ws ps, e = .fatal ∨ ∃ k', e = .diagnostic k') := by
+  unfold analyze analyzeWith at h
+  unfold runCmd
+  cases hb : buildNodeMap ps with
+  | none => simp
+  | some ns =>
+    simp only [hb] at h ⊢
+    cases hg : buildGraph Cfg.current ws ns with
+    | some k' => simp
+    | none =>
+      simp only [hg] at h ⊢
+      split
+      · simp
+      · cases hc : constraintErrors Cfg.current ws ns with
+        | nil => simp [hc] at h
+        | cons k' ks =>
+          simp only
+          refine ⟨?_, ?_, ?_, ⟨.diagnostic k', by simp, .inr ⟨k', rfl⟩⟩⟩
+          · simp
+          · simp
+          · exact List.getLast?_concat
 
-/-- and conversely the executor is started exactly by `build` / `test` / `run` on an accepted graph -/
-theorem executes_iff (r : Request) (ws : Bytes) (ps : List Pkg) :
-    Ev.execute ∈ runCmd Cfg.current r ws ps ↔ r.cmd ≠ .check ∧ analyze ws ps = .accept := by
-  unfold analyze runCmd
-  cases analyzeWith Cfg.current ws ps <;> cases r.cmd <;> simp
+/-- **The executor is entered exactly when** the command is not `check`, the whole graph is accepted, and none of the
+    later stages stops the command (label lookup of `run`, selection, a non-empty selection, cache backend, lock).
+    In particular (→) it is never entered without `accept`. The right-hand side's `Env` conditions are outcomes, not
+    modelled behaviour. -/
+theorem executes_iff (r : Request) (env : Env) (ws : Bytes) (ps : List Pkg) :
+    Ev.execute ∈ runCmd Cfg.current r env ws ps ↔
+      r.cmd ≠ .check ∧ analyze ws ps = .accept ∧ (r.cmd = .run → env.labelsOk = true) ∧
+      env.selectOk = true ∧ env.selected ≠ 0 ∧ env.cacheOk = true ∧ env.lockOk = true := by
+  unfold analyze analyzeWith runCmd
+  cases hb : buildNodeMap ps with
+  | none => simp
+  | some ns =>
+    simp only
+    cases hg : buildGraph Cfg.current ws ns with
+    | some k' => simp
+    | none =>
+      simp only
+      cases hc : constraintErrors Cfg.current ws ns with
+      | cons k' ks =>
+        by_cases hl : (r.cmd = .run && !env.labelsOk) = true <;> simp [hl]
+      | nil =>
+        obtain ⟨cmd, pats, tags⟩ := r
+        obtain ⟨labelsOk, selectOk, selected, cacheOk, lockOk, execOk⟩ := env
+        cases cmd <;> cases labelsOk <;> cases selectOk <;> cases cacheOk <;> cases lockOk <;> cases execOk <;>
+          by_cases hs : selected = 0 <;> simp [afterAccept, hs]
 
-/-- a request that selects only a valid package of a graph that is invalid elsewhere -/
-example : runCmd Cfg.current ⟨.build, [[47, 47, 112, 47, 46, 46, 46]], []⟩ exWs
-    [⟨[exB], [⟨⟨[112], [97, 108]⟩, ⟨[], [97]⟩⟩]⟩, ⟨[{ exA with inputs := [[46, 46, 47, 115]] }], []⟩]
-    = [.diagnostic .inputEscape, .exitFail] := by decide
+/-- **Every printed diagnostic names a defect that is present** — not only the first one: `grog check` / `RunBuild`
+    print all constraint errors before exiting (`check.go`, `build.go`). (For a reported output conflict: or an
+    absolute output path, as in `reject_names_present_defect`.) -/
+theorem all_diagnostics_name_present_defects (r : Request) (env : Env) (ws : Bytes) (ps : List Pkg)
+    (hws : isAbs ws = true) (hpk : PkgRel ps) (k : Kind)
+    (h : Ev.diagnostic k ∈ runCmd Cfg.current r env ws ps) :
+    Spec.hasDefect ws (allNodes ps) k ∨ (k = .conflict ∧ Spec.hasDefect ws (allNodes ps) .outputEscape) := by
+  unfold runCmd at h
+  rcases buildNodeMap_spec ps with ⟨hb, hnd⟩ | ⟨hb, hnd⟩
+  · rw [hb] at h
+    simp only at h
+    cases hg : buildGraph Cfg.current ws (allNodes ps) with
+    | some k' =>
+      simp only [hg, List.mem_cons, Ev.diagnostic.injEq, reduceCtorEq, List.not_mem_nil, or_false] at h
+      subst h
+      apply reject_names_present_defect ws ps hws hpk
+      simp [analyze, analyzeWith, hb, hg]
+    | none =>
+      simp only [hg] at h
+      split at h
+      · simp at h
+      · cases hc : constraintErrors Cfg.current ws (allNodes ps) with
+        | nil =>
+          exfalso
+          simp only [hc] at h
+          unfold afterAccept at h
+          split at h
+          · simp at h
+          · repeat' split at h
+            all_goals simp at h
+        | cons k' ks =>
+          simp only [hc, List.mem_append, List.mem_map, List.mem_cons, reduceCtorEq, List.not_mem_nil, or_false] at h
+          obtain ⟨k'', hk'', he⟩ := h
+          simp only [Ev.diagnostic.injEq] at he
+          subst he
+          exact .inl (mem_constraintErrors hws (hc ▸ List.mem_cons.mpr hk''))
+  · rw [hb] at h
+    simp only [List.mem_cons, Ev.diagnostic.injEq, reduceCtorEq, List.not_mem_nil, or_false] at h
+    subst h
+    exact .inl hnd
+
+/-- corollary: the executor is never entered unless the whole loaded graph was accepted -/
+theorem executes_only_after_accept (r : Request) (env : Env) (ws : Bytes) (ps : List Pkg)
+    (h : Ev.execute ∈ runCmd Cfg.current r env ws ps) : analyze ws ps = .accept :=
+  ((executes_iff r env ws ps).mp h).2.1
+
+/-- a request that selects only a valid package of a graph that is invalid elsewhere: every constraint error is printed -/
+example : runCmd Cfg.current ⟨.build, [[47, 47, 112, 47, 46, 46, 46]], []⟩ envOk exWs
+    [⟨[exB], [⟨⟨[112], [97, 108]⟩, ⟨[], [97]⟩⟩]⟩, ⟨[{ exA with inputs := [[46, 46, 47, 115], [47, 120]] }], []⟩]
+    = [.diagnostic .inputEscape, .diagnostic .inputEscape, .exitFail] := by decide
+/-- the accepted graph under `grog run`, and with nothing selected -/
+example : runCmd Cfg.current ⟨.run, [], []⟩ envOk exWs exPs = [.execute, .runBinaries, .exitOk] ∧
+    runCmd Cfg.current ⟨.build, [], []⟩ { envOk with selected := 0 } exWs exPs = [.fatal, .exitFail] := by decide
 
 example : analyze exWs [⟨[{ exA with deps := [⟨[], [97]⟩] }], []⟩] = .reject .selfLoop := by decide
 
@@ -262,18 +369,31 @@ example : analyze exWs [⟨[{ exA with deps := [⟨[], [97]⟩] }], []⟩] = .re
 
 /-- F-direscape: a directory output outside the workspace was accepted -/
 theorem old_accepts_escaping_dir :
-    let ps : List Pkg := [⟨[⟨⟨[], [97]⟩, [], [], [⟨.dir, [46, 46, 47, 46, 46, 47, 120]⟩], false, true⟩], []⟩]
+    let ps : List Pkg := [⟨[⟨⟨[], [97]⟩, [], [], [], [⟨.dir, [46, 46, 47, 46, 46, 47, 120]⟩], false, true⟩], []⟩]
     analyzeOld exWs ps = .accept ∧ analyze exWs ps = .reject .outputEscape := by decide
 
 /-- F-selfoverlap: one target with `dir::d` and `d/x` was rejected as a conflict with itself -/
 theorem old_rejects_self_overlap :
-    let ps : List Pkg := [⟨[⟨⟨[], [97]⟩, [], [], [⟨.dir, [100]⟩, ⟨.file, [100, 47, 120]⟩], false, true⟩], []⟩]
+    let ps : List Pkg := [⟨[⟨⟨[], [97]⟩, [], [], [], [⟨.dir, [100]⟩, ⟨.file, [100, 47, 120]⟩], false, true⟩], []⟩]
     analyzeOld exWs ps = .reject .conflict ∧ analyze exWs ps = .accept := by decide
+
+/-- F-globescape: an input glob pattern pointing outside the package (`../*.c`) resolved to nothing and was accepted -/
+theorem old_accepts_escaping_glob :
+    let ps : List Pkg := [⟨[⟨⟨[112], [97]⟩, [], [], [[46, 46, 47, 42, 46, 99]], [], false, true⟩], []⟩]
+    analyzeOld exWs ps = .accept ∧ analyze exWs ps = .reject .inputEscape := by decide
+
+/-- F-reenter: two unordered targets writing `x` and `../s/x` in the workspace `/w/s` — the same file — were accepted
+    (overlaps were decided on the path as spelled, not on the resolved location) -/
+theorem old_accepts_reentering_overlap :
+    let ws : Bytes := [47, 119, 47, 115]
+    let ps : List Pkg := [⟨[⟨⟨[], [97]⟩, [], [], [], [⟨.file, [120]⟩], false, true⟩,
+                            ⟨⟨[], [98]⟩, [], [], [], [⟨.file, [46, 46, 47, 115, 47, 120]⟩], false, true⟩], []⟩]
+    analyzeOld ws ps = .accept ∧ analyze ws ps = .reject .conflict := by decide
 
 /-- F-dotdir: `dir::.` and a file below it, declared by unordered targets, were accepted -/
 theorem old_accepts_dot_overlap :
-    let ps : List Pkg := [⟨[⟨⟨[], [97]⟩, [], [], [⟨.dir, [46]⟩], false, true⟩,
-                            ⟨⟨[], [98]⟩, [], [], [⟨.file, [120]⟩], false, true⟩], []⟩]
+    let ps : List Pkg := [⟨[⟨⟨[], [97]⟩, [], [], [], [⟨.dir, [46]⟩], false, true⟩,
+                            ⟨⟨[], [98]⟩, [], [], [], [⟨.file, [120]⟩], false, true⟩], []⟩]
     analyzeOld exWs ps = .accept ∧ analyze exWs ps = .reject .conflict := by decide
 
 end Grog.C11
